@@ -12,7 +12,7 @@
                                of the module cache (_ibs_prm, _ibs) (None = fresh) *)
 From Coq Require Import List Arith Bool ZArith Reals QArith.
 From PA Require Import base.Arr base.Px base.MatL model.DistrGeom model.DistrFit model.RbasexOut
-  model.DistrQ proofs.VmiInvProofs proofs.DistrFitProofs proofs.RbasexProofs proofs.RbasexSynth.
+  model.DistrQ proofs.VmiInvProofs proofs.DistrFitProofs proofs.RbasexProofs proofs.RbasexSynth gen.VmiIndex proofs.VmiIndexProofs.
 Import ListNotations.
 
 (* _image is the synthesis sum_n lerp(c_n, r) cos^n(theta): *)
@@ -105,6 +105,14 @@ Theorem C16_fold_is_part_of_unfold : forall (h w row col rmax N : nat), (row < h
     = px 0%R (assemble OUnfold (gq h w row col rmax N odd) B) a (Qw - 1 + b).
 Proof. exact (fold_is_part_of_unfold R 0%R). Qed.
 Print Assumptions C16_fold_is_part_of_unfold.
+
+(* The odd resolution and the (height, width, row) requested from _image for each
+   `out` value, as translated from the current rbasex_transform source
+   (gen/VmiIndex.v, regenerated on every run), are the model's. *)
+Theorem C16_out_dims_translated : forall out g order odd,
+  gen_out_dims out g = out_dims out g /\ gen_rbasex_odd order odd = resolve_odd order odd.
+Proof. intros; split; [apply out_dims_translated|apply rbasex_odd_translated]. Qed.
+Print Assumptions C16_out_dims_translated.
 
 (* All out values (and None) return identical distributions: they are computed
    before `out` is looked at (structural in the model; swept on the implementation). *)
